@@ -98,11 +98,34 @@ def run_case(case, ctx):
     per_fit = max(size_a, 1)
     need = int(math.ceil((math.log(1e9) + math.log(max(n, 2))) / -math.log(1 - 1.0 / n))) if n > 1 else 1
     m = int(min(max(2, math.ceil(need / per_fit) + 1), 400))
+    if 2 <= n <= 5:
+        m = max(m, 40)          # tiny training sets: enough members for the tail tests on the draws to have power
     cfg = {"n": n, "alpha": alpha, "weighted": weighted, "zero_weights": zero_w, "base": case["base"],
            "n_jobs": case["n_jobs"], "n_estimators": m}
     K = "C17/"
     if size_a == 0:
-        ctx.excluded("round(alpha*n)=0: nothing to train on")
+        # round(alpha*n) = 0: each member is to be trained on NO row.  A regressor that accepts an empty sample shows what
+        # the members are given (ordinary regressors refuse it, the fit is then refused as a whole)
+        from sklearn.base import BaseEstimator as _BE0, RegressorMixin as _RM0
+
+        class AcceptsEmpty(_RM0, _BE0):
+            def fit(self, X, y, sample_weight=None):
+                self.n_rows_ = int(numpy.asarray(y).shape[0])
+                return self
+
+            def predict(self, X):
+                return numpy.zeros(len(X))
+        try:
+            ir0 = IntervalRegressor(estimator=AcceptsEmpty(), n_estimators=3, alpha=alpha)
+            numpy.random.seed(1)
+            ir0.fit(X, y)
+            got0 = [getattr(e_, "n_rows_", None) for e_ in ir0.estimators_]
+            ctx.hit("fit.sample_size.zero")
+            if any(g_ not in (0, None) for g_ in got0):
+                ctx.violation(K + "fit/sample-size/zero", "round(alpha*n)=0 (n=%d, alpha=%g): the members were trained on %r "
+                              "rows" % (n, alpha, got0), cfg=cfg)
+        except Exception:
+            ctx.excluded("round(alpha*n)=0: the fit is refused")
         return
     Xk, yk = X.copy(), y.copy()
     # containers: targets / weights as pandas Series whose index is a permutation of the positions, X as a frame
